@@ -235,6 +235,8 @@ func (w *worker) emit(cs *caseT) {
 	if out.RejectExpected {
 		r.Notes["rejection-expected"]++
 	}
+	r.Notes["gossip-runs"] += int64(out.GossipRuns)
+	r.Notes["gossip-messages-sent"] += int64(out.GossipSent)
 	r.Cases++
 	r.Deliveries += int64(1 + len(cs.pre))
 	if out.Decoded {
@@ -430,9 +432,34 @@ type workerProc struct {
 	id      int
 	cmd     *exec.Cmd
 	in      io.WriteCloser
-	out     *bufio.Scanner
+	lines   chan []byte // output lines; closed when the process ends
 	journal string
 	stderr  *tailBuf
+	// a worker that prints nothing for this long is killed: a handler that does not return
+	hangLimit time.Duration
+	hung      bool
+}
+
+const (
+	hangLimitRun   = 240 * time.Second // a checkpoint (<= 1000 cases) takes seconds
+	hangLimitAlone = 90 * time.Second  // one case
+)
+
+// nextLine waits for the next output line; nil if the process ended or was killed as hung.
+func (wp *workerProc) nextLine() []byte {
+	select {
+	case l, ok := <-wp.lines:
+		if !ok {
+			return nil
+		}
+		return l
+	case <-time.After(wp.hangLimit):
+		wp.hung = true
+		wp.cmd.Process.Kill()
+		for range wp.lines {
+		}
+		return nil
+	}
 }
 
 type tailBuf struct {
@@ -479,7 +506,14 @@ func startWorker(id int, tier string, target int) (*workerProc, error) {
 	}
 	sc := bufio.NewScanner(outp)
 	sc.Buffer(make([]byte, 1<<20), 256<<20)
-	return &workerProc{id: id, cmd: cmd, in: in, out: sc, journal: jp, stderr: tb}, nil
+	wp := &workerProc{id: id, cmd: cmd, in: in, lines: make(chan []byte, 4), journal: jp, stderr: tb, hangLimit: hangLimitRun}
+	go func() {
+		for sc.Scan() {
+			wp.lines <- append([]byte(nil), sc.Bytes()...)
+		}
+		close(wp.lines)
+	}()
+	return wp, nil
 }
 
 func (wp *workerProc) readJournal() (unit, cs int) {
@@ -511,9 +545,13 @@ func (wp *workerProc) request(idx, from, only int, skip []int) (parts []*unitRes
 	}
 	fmt.Fprintf(wp.in, "U %d %d %d %s\n", idx, from, only, strings.Join(sk, ","))
 	upto = from
-	for wp.out.Scan() {
+	for {
+		line := wp.nextLine()
+		if line == nil {
+			break
+		}
 		var r unitResult
-		if err := json.Unmarshal(wp.out.Bytes(), &r); err != nil {
+		if err := json.Unmarshal(line, &r); err != nil {
 			break
 		}
 		parts = append(parts, &r)
@@ -530,6 +568,7 @@ type deathRec struct {
 	Unit   int
 	Case   int
 	Stderr string
+	Hung   bool
 }
 
 func main() {
@@ -634,7 +673,7 @@ func main() {
 						mu.Unlock()
 						return
 					}
-					deaths = append(deaths, deathRec{Unit: idx, Case: jc, Stderr: errTail})
+					deaths = append(deaths, deathRec{Unit: idx, Case: jc, Stderr: errTail, Hung: wp.hung})
 					tooMany := len(deaths) > 100 || len(killers) > 20
 					mu.Unlock()
 					if tooMany {
